@@ -70,7 +70,7 @@ def run(chk, pid):
         for f in sorted(os.listdir(pdir)):
             if f.endswith('.diff'):
                 jobs.append(('SV.2', f[:-5], os.path.join(pdir, f)))
-    with ThreadPoolExecutor(max_workers=4) as ex:
+    with ThreadPoolExecutor(max_workers=int(os.environ.get("VERIF_SV_WORKERS", "6"))) as ex:
         outs = list(ex.map(lambda j: _run(pid, j[2]), jobs))
     broken = []
     for (rule, name, patch), (rc, msg) in zip(jobs, outs):
